@@ -120,52 +120,49 @@ def _named(repo, col):
     R = "R-C11-filter"
     fi = repo.method("Module", "__getattr__")
     ex = idx.expander(repo, fi)
-    rets = {}
-    for n in walk_no_nested(fi.node):
-        if isinstance(n, ast.If) and isinstance(n.test, ast.Compare) and isinstance(n.test.ops[0], ast.In):
-            coll = unparse(n.test.comparators[0])
-            rets[coll] = n
+    # the views handed out for a group name / channel name / synapse-type name, searched in everything __getattr__ can return
+    # (one `if` per kind with its own return, or one if/elif chain with a common tail -- the returned terms are the same)
+    terms = list(ex.returns) + [s_.value for s_ in ex.stores if s_.value is not None]
+    sel_calls = [x for t_ in terms for x in t_.walk() if x.op == "mcall" and x.name == "select" and len(x.args) > 1]
+    key_p = fi.params[1]
     # groups
-    g = rets.get("self.base.groups")
-    ok = g is not None and "self.select(self.groups[key]) if key in self.groups else self.select(None)" in unparse(g).replace("\n", " ").replace("  ", " ")
-    t = None
-    if g is not None:
-        a = next((x for x in g.body if isinstance(x, ast.Assign)), None)
-        t = ex.term(a.value) if a is not None else None
-        ok = t is not None and t.op == "ifexp" and t.args[1].op == "mcall" and t.args[1].name == "select" and \
-            t.args[1].args[1].op == "sub" and t.args[1].args[1].args[0].op == "attr" and t.args[1].args[1].args[0].name == "groups" and \
-            _is_self(t.args[1].args[1].args[0].args[0]) and t.args[1].args[1].args[1].op == "param"
-    col.check(bool(ok), R, fi, "group name selects the view's own part of the group", "self.select(self.groups[key])",
-              f"group selection is {t.short(100) if t else None}", node=g or fi.node)
+    grp = [x for x in sel_calls if T.find(x.args[1], lambda y: y.op == "sub" and y.args[0].op == "attr" and y.args[0].name == "groups") is not None]
+    ok = any(T.find(x.args[1], lambda y: y.op == "sub" and y.args[0].op == "attr" and y.args[0].name == "groups" and _is_self(y.args[0].args[0]) and
+                    y.args[1].op == "param" and y.args[1].name == key_p) is not None and _is_self(x.args[0]) for x in grp)
+    wrong = bool(grp) and not ok
+    col.add(R, fi, "group name selects the view's own part of the group", "DISCHARGED" if ok else ("VIOLATED" if wrong else "UNDECIDED"),
+            "self.select(self.groups[key])" if ok else f"group selection is {grp[0].short(100) if grp else None}: a group reached through a view must "
+            f"be restricted to the view (self.groups, not self.base.groups)", node=fi.node)
     # channel name
-    c = next((v for k, v in rets.items() if "channels" in k), None)
-    t = None
+    chs = [x for x in sel_calls if T.find(x.args[1], lambda y: y.op == "attr" and y.name == "index") is not None]
     ok = False
-    if c is not None:
-        a = next((x for x in c.body if isinstance(x, ast.Assign) and unparse(x.targets[0]) == "inds"), None)
-        t = ex.term(a.value) if a is not None else None
-        ix = T.find(t, lambda x: x.op == "sub" and x.args[0].op == "attr" and x.args[0].name == "index") if t is not None else None
-        ok = ix is not None and ix.args[0].args[0].op == "attr" and ix.args[0].args[0].name == "nodes" and _is_self(ix.args[0].args[0].args[0]) and \
-            ix.args[1].op == "sub" and ix.args[1].args[1].op == "param" and ix.args[1].args[0].op == "attr" and _is_self(ix.args[1].args[0].args[0])
-    col.check(ok, R, fi, "channel name selects the rows of the view where the channel's presence column is set",
-              "self.nodes.index[self.nodes[key]]", f"channel selection is {t.short(100) if t else None}", node=c or fi.node)
+    for x in chs:
+        ix = T.find(x.args[1], lambda y: y.op == "sub" and y.args[0].op == "attr" and y.args[0].name == "index")
+        if ix is not None and ix.args[0].args[0].op == "attr" and ix.args[0].args[0].name == "nodes" and _is_self(ix.args[0].args[0].args[0]) and \
+                ix.args[1].op == "sub" and ix.args[1].args[1].op == "param" and ix.args[1].args[1].name == key_p and \
+                ix.args[1].args[0].op == "attr" and ix.args[1].args[0].name == "nodes" and _is_self(ix.args[1].args[0].args[0]):
+            ok = True
+    col.add(R, fi, "channel name selects the rows of the view where the channel's presence column is set",
+            "DISCHARGED" if ok else ("VIOLATED" if chs else "UNDECIDED"),
+            "self.nodes.index[self.nodes[key]]" if ok else f"channel selection is {chs[0].short(100) if chs else None}", node=fi.node)
     # synapse type name
-    sy = next((v for k, v in rets.items() if "synapse_names" in k and "base" in k), None)
+    edge_calls = [x for t_ in terms for x in t_.walk() if x.op == "mcall" and x.name == "edge" and len(x.args) > 1]
     ok = False
-    t = None
-    if sy is not None:
-        a = next((x for x in sy.body if isinstance(x, ast.Assign) and unparse(x.targets[0]) == "syn_inds"), None)
-        t = ex.term(a.value) if a is not None else None
-        if t is not None:
-            eq = T.find(t, lambda x: x.op == "cmp" and x.name == "==" and x.args[1].op == "param")
-            ok = eq is not None and T.find(eq.args[0], lambda x: x.op == "const" and x.name == "type") is not None and \
-                T.find(t, lambda x: x.op == "const" and x.name == "global_edge_index") is not None and \
-                T.find(t, lambda x: x.op == "attr" and x.name == "edges" and _is_self(x.args[0])) is not None
-        src = unparse(sy)
-        ok = ok and "self.scope('global').edge(syn_inds).scope(orig_scope)" in src
-    col.check(ok, R, fi, "synapse type name selects the view's edges of that type (global edge indices, caller's scope restored)",
-              "self.edges[self.edges['type'] == key]['global_edge_index'] -> scope('global').edge(...).scope(orig)",
-              f"synapse selection is {t.short(100) if t else None}", node=sy or fi.node)
+    for x in edge_calls:
+        arg = x.args[1]
+        eq = T.find(arg, lambda y: y.op == "cmp" and y.name == "==" and y.args[1].op == "param" and y.args[1].name == key_p)
+        own_edges = T.find(arg, lambda y: y.op == "attr" and y.name == "edges" and _is_self(y.args[0])) is not None
+        gidx = T.find(arg, lambda y: y.op == "const" and y.name == "global_edge_index") is not None
+        glob = x.args[0].op == "mcall" and x.args[0].name == "scope" and len(x.args[0].args) > 1 and x.args[0].args[1].op == "const" and \
+            x.args[0].args[1].name == "global" and _is_self(x.args[0].args[0])
+        restored = any(y.op == "mcall" and y.name == "scope" and y.args[0] is x and len(y.args) > 1 and
+                       T.find(y.args[1], lambda z: z.op == "attr" and z.name == "_scope") is not None for t_ in terms for y in t_.walk())
+        if eq is not None and T.find(eq.args[0], lambda y: y.op == "const" and y.name == "type") is not None and own_edges and gidx and glob and restored:
+            ok = True
+    col.add(R, fi, "synapse type name selects the view's edges of that type (global edge indices, caller's scope restored)",
+            "DISCHARGED" if ok else ("VIOLATED" if edge_calls else "UNDECIDED"),
+            "self.edges[self.edges['type'] == key]['global_edge_index'] -> scope('global').edge(...).scope(orig)" if ok else
+            f"synapse selection is {edge_calls[0].short(120) if edge_calls else None}", node=fi.node)
     # what a View shows
     vi = repo.method("View", "__init__")
     exv = idx.expander(repo, vi)
@@ -274,7 +271,7 @@ def _confine(repo, col):
                     continue
                 # ---- whole-column / whole-table stores into base tables
                 whole = None
-                if s.kind == "sub" and table_kind(b) and any(x.op == "attr" and x.name == "base" for x in b.walk()) and b.op == "attr":
+                if s.kind == "sub" and table_kind(b) and b.op == "attr" and b.args[0].op == "attr" and b.args[0].name == "base":
                     whole = ("column", table_kind(b))
                 elif s.kind == "attr" and s.key.name in ("nodes", "edges") and b.op == "attr" and b.name == "base":
                     whole = ("table", s.key.name)
